@@ -14,12 +14,12 @@ func init() {
 }
 
 func checkC17(r *Run) {
-	r.Rule("R1", "exactly once: on every path to a success return PartialHelper calls the feeder once and renders once per layout level; BlockWith evaluates the block once and writes once; ContentOf either calls the stored closure or renders its own block, once; the stored closure renders once", 4)
-	r.Rule("R2", "contentFor emits nothing and registers under \"contentFor:\"+name; contentOf looks up the same key", 3)
-	r.Rule("R3", "data reaches the block/partial: the child scope that receives the data map is the one rendered with (C09.R4) and the data ranged over is the function's own parameter", 3)
-	r.Rule("R4", "unescaped, unmodified: results are template.HTML of the rendered text; between render and result only the content-type-conditional JS escape may intervene, and it precedes the layout step; yield is template.HTML of the (already escaped) part", 4)
-	r.Rule("R5", "the block reaches the helper: the parser attaches a '{ ... }' after a call to the call node, and the auto-supplied helper context carries it (C12.R5)", 2)
-	r.Rule("R6", "rendering a block leaves the evaluator in the scope it found: BlockWith (and every other scope installer) restores the saved scope by defer (C09.R1)", 5)
+	r.Rule("R1", "exactly once: on every path to a success return PartialHelper calls the feeder once and renders once per layout level; BlockWith evaluates the block once and writes once; ContentOf either calls the stored closure or renders its own block, once; the stored closure renders once", 1)
+	r.Rule("R2", "contentFor emits nothing and registers under \"contentFor:\"+name; contentOf looks up the same key", 1)
+	r.Rule("R3", "data reaches the block/partial: the child scope that receives the data map is the one rendered with (C09.R4) and the data ranged over is the function's own parameter", 1)
+	r.Rule("R4", "unescaped, unmodified: results are template.HTML of the rendered text; between render and result only the content-type-conditional JS escape may intervene, and it precedes the layout step; yield is template.HTML of the (already escaped) part", 1)
+	r.Rule("R5", "the block reaches the helper: the parser attaches a '{ ... }' after a call to the call node, and the auto-supplied helper context carries it (C12.R5)", 1)
+	r.Rule("R6", "rendering a block leaves the evaluator in the scope it found: BlockWith (and every other scope installer) restores the saved scope by defer (C09.R1)", 1)
 	scopePairingRule(r, "R6")
 	exactlyOnceRule(r, "R1")
 	contentRulesSSA(r, "R1", "R2", "R3", "")
@@ -452,12 +452,12 @@ func c12AutoSupplyBlockOnly(r *Run, rule string, f *FuncInfo) {
 // ---- C20 ---------------------------------------------------------------------
 
 func checkC20(r *Run) {
-	r.Rule("R1", "escaping helpers delegate to the standard escapers as the last step: every success return of htmlEscape is template.HTMLEscapeString of the string (or block rendering); jsEscape IS template.JSEscapeString", 2)
+	r.Rule("R1", "escaping helpers delegate to the standard escapers as the last step: every success return of htmlEscape is template.HTMLEscapeString of the string (or block rendering); jsEscape IS template.JSEscapeString", 1)
 	r.Rule("R2", "raw is the identity conversion of its parameter (and the sink writes template.HTML verbatim, C01.R2)", 1)
-	r.Rule("R3", "toJSON returns template.HTML of the unmodified json.Marshal output on every success path; errors propagate; nothing in the module switches HTML escaping of JSON off", 2)
+	r.Rule("R3", "toJSON returns template.HTML of the unmodified json.Marshal output on every success path; errors propagate; nothing in the module switches HTML escaping of JSON off", 1)
 	r.Rule("R4", "truncate never splits a character: every slice and every length compared with size is taken on []rune", 1)
 	r.Rule("R5", "truncate bounds: the prefix slice is dominated by 'len(runes) <= size -> return s' and 'len(trail runes) >= size -> return trail'; the result is prefix + trail", 1)
-	r.Rule("R6", "option access: options are read with comma-ok assertions and the options map is never written", 2)
+	r.Rule("R6", "option access: options are read with comma-ok assertions and the options map is never written", 1)
 	escapersRule(r, "R1")
 	rawRule(r, "R2")
 	jsonRule(r, "R3")
